@@ -532,9 +532,10 @@ def run_check(prop, tier, seed, replay=None):
         "violations": 0 if violation is None else 1,
     }
     evdir = os.environ.get("VERIF_EVIDENCE_DIR") or os.path.join(VERIF, "evidence")   # seeded-change runs write elsewhere
-    os.makedirs(evdir, exist_ok=True)
-    with open(os.path.join(evdir, f"{pid}.json"), "w") as f:
-        json.dump(ev, f, indent=1, default=str)
+    if not replay:   # a replay of stored cases is not a run of the check: it leaves the evidence alone
+        os.makedirs(evdir, exist_ok=True)
+        with open(os.path.join(evdir, f"{pid}.json"), "w") as f:
+            json.dump(ev, f, indent=1, default=str)
     for l in known_lines:
         print(l)
     if violation:
